@@ -717,6 +717,7 @@ theorem step_hb (w : World) (op : Op) (i : Inv w) (h : HB w) : HB (step w op) :=
       dsimp only
       repeat (first | exact h | exact (hb_wsFrame _ _ hx).toHB | split)
     | drop c => exact (hb_wsDrop _ hx).toHB
+    | closeFrame c code => exact (hb_wsDrop _ (hb_setConn _ _ hx)).toHB
     | send sid m c cb pre => exact (hb_appSend _ _ _ _ _ hx).toHB
     | close sid d => exact (hb_appClose _ _ hx).toHB
     | shutdown => exact (hb_shutdown hx).toHB
